@@ -7,6 +7,7 @@ one) and is decoded by the real _redirect_streams to the class its stream names 
 bounded (stand-in, never counted as proved; also the replay domain of the wiring contract): the real cmds_to_specs on every
 pipeline of <= 3 stages x 9 per-stage redirect forms x optional trailing `&`, checked against the same wiring clauses."""
 import os
+import shutil
 import tempfile
 from pyvc.contract import *
 
@@ -259,3 +260,51 @@ def pipelines(tier, seed):
 
 native_check("C07", "small-pipelines-are-wired-as-stated", "bounded", pipelines,
              doc="real cmds_to_specs on all pipelines of <= 3 stages x 9 redirect forms")
+
+
+def multiword_targets(tier, seed):
+    """a redirect whose target expands to several words (a glob matching several files, @([...])) is malformed: it must be reported, and no
+    file may be opened, truncated or created for it"""
+    from xonsh.procs import specs as S
+
+    _session()
+    cwd = os.getcwd()
+    tmp = tempfile.mkdtemp(prefix="xv-c07m-", dir=os.environ.get("XV_SCRATCH"))
+    os.chdir(tmp)
+    failures, n, samples = [], 0, []
+    try:
+        for op in (">", ">>", "o>", "1>", "e>", "2>", "err>", "a>", "&>", "all>", "e>>", "a>>", "<"):
+            for targets in (["t1.txt", "t2.txt"], ["t1.txt", "t2.txt", "t3.txt"]):
+                for pos in ("last", "middle"):
+                    n += 1
+                    for t in targets:
+                        with open(t, "w") as f:
+                            f.write("KEEP")
+                    red = (op, list(targets))
+                    cmd = ["echo", "hi", red] if pos == "last" else ["echo", red, "hi"]
+                    obs, specs = None, None
+                    try:
+                        specs = S.cmds_to_specs([cmd], captured=False)
+                        obs = "accepted: %r" % (specs[0].cmd,)
+                    except Exception:  # noqa  (XonshError or the `Unsupported redirect` exception: both are a report)
+                        pass
+                    finally:
+                        for sp in specs or []:
+                            sp.close()
+                    changed = [t for t in targets if open(t).read() != "KEEP"]
+                    if changed and not obs:
+                        obs = "reported, but the file(s) %r were opened for writing first" % changed
+                    elif changed:
+                        obs += "; file(s) %r truncated" % changed
+                    if obs and len(failures) < 5:
+                        failures.append({"clause": "a redirect with several target words is reported and touches no file", "inputs": {"redirect": [op, targets], "position": pos}, "observed": obs})
+                    elif not obs and len(samples) < 3:
+                        samples.append({"redirect": [op, targets], "position": pos})
+    finally:
+        os.chdir(cwd)
+        shutil.rmtree(tmp, ignore_errors=True)
+    return {"kind": "bounded", "evaluations": n, "distinct_nontrivial": n, "failures": failures, "exhaustive": False,
+            "bound": "13 operator spellings x targets of 2 / 3 words x 2 positions in the command", "domain": "real cmds_to_specs (SubprocSpec.build) on one stage", "samples": samples}
+
+
+native_check("C07", "a-redirect-with-several-target-words-is-an-error", "bounded", multiword_targets, doc="malformed redirect targets through the real SubprocSpec.build")
